@@ -19,6 +19,8 @@ from ..interp import ASparse, AObj
 from .. import facts as F
 
 PROP = 'C12'
+from . import lemmas as _lemmas
+LEMMAS = [_lemmas.PROTOCOL, _lemmas.SOLVE]
 RULES = {'T1': 'transient row == alpha*(phi-phi_old)/dt', 'T2': 'explicit update == old + dt*RHS with boundary values re-imposed',
          'T3': 'solveExplicitPDE leaves its input untouched'}
 ASSUMPTIONS = ['exact arithmetic', 'dt != 0', 'limits dt->0, dt->inf and the O(dt^2) agreement are not decided statically (corollaries / out of reach)']
